@@ -438,31 +438,7 @@ class Case:
         self.dy = np.array([float(o.dvalue) for o in self.ys])
         self.yv = np.array([float(o.value) for o in self.ys])
         self.yref = [RefObs.from_pe(o) for o in self.ys]
-        # priors
-        self.priors = []
-        if spec['priors']:
-            col = np.sqrt(np.sum((self.A / self.dy[:, None]) ** 2, axis=0))
-            for it in spec['priors']['items']:
-                k = it['k']
-                scale = 1.0 / col[k] if col[k] > 0 else 1.0
-                dp = it['w'] * scale
-                v = spec['ptrue'][k] + it['z'] * dp
-                if it['kind'] == 'str':
-                    text, pv, pdv = prior_string(v, dp, it['errform'])
-                    self.priors.append({'k': k, 'arg': text, 'v': pv, 'dv': pdv, 'ref': None})
-                else:
-                    o = build_obs(it['obs'])
-                    d0 = analyse(o, 2.0, 'prior')
-                    po = v + (o - o.value) * (dp / d0)
-                    pdv = analyse(po, it['S'], 'prior')
-                    self.priors.append({'k': k, 'arg': po, 'v': float(po.value), 'dv': pdv, 'ref': RefObs.from_pe(po)})
-            # the same observable *object* as prior of two parameters (every fourth case that has two Obs priors; a pure
-            # function of the spec): each prior row has its own sensitivity, the contributions add up
-            obs_pri = [q for q in self.priors if q['ref'] is not None]
-            if len(obs_pri) >= 2 and int(spec_hash(spec), 16) % 4 == 0:
-                a_, b_ = obs_pri[0], obs_pri[1]
-                b_['arg'], b_['v'], b_['dv'], b_['ref'] = a_['arg'], a_['v'], a_['dv'], a_['ref']
-                self.same_prior_object = True
+        self.build_priors(spec['priors'], spec['ptrue'], spec)
         # weights in flat order
         self.corr_kind = None
         self.corr = None
@@ -486,6 +462,42 @@ class Case:
             self.W = np.linalg.inv(cov)
         else:
             self.W = np.diag(1.0 / self.dy ** 2)
+
+    def build_priors(self, pspec, ptrue, hspec):
+        """The prior arguments ('value(err)' strings / observables) of the items of pspec: centred at the true parameter plus
+        z times the prior width, the width being w times the error the data alone give to that parameter (column norm)."""
+        self.priors = []
+        if pspec:
+            col = np.sqrt(np.sum((self.A / self.dy[:, None]) ** 2, axis=0))
+            for it in pspec['items']:
+                k = it['k']
+                scale = 1.0 / col[k] if col[k] > 0 else 1.0
+                dp = it['w'] * scale
+                v = ptrue[k] + it['z'] * dp
+                if it['kind'] == 'str':
+                    text, pv, pdv = prior_string(v, dp, it['errform'])
+                    self.priors.append({'k': k, 'arg': text, 'v': pv, 'dv': pdv, 'ref': None})
+                else:
+                    o = build_obs(it['obs'])
+                    d0 = analyse(o, 2.0, 'prior')
+                    po = v + (o - o.value) * (dp / d0)
+                    pdv = analyse(po, it['S'], 'prior')
+                    self.priors.append({'k': k, 'arg': po, 'v': float(po.value), 'dv': pdv, 'ref': RefObs.from_pe(po)})
+            # the same observable *object* as prior of two parameters (every fourth case that has two Obs priors; a pure
+            # function of the spec): each prior row has its own sensitivity, the contributions add up
+            obs_pri = [q for q in self.priors if q['ref'] is not None]
+            if len(obs_pri) >= 2 and int(spec_hash(hspec), 16) % 4 == 0:
+                a_, b_ = obs_pri[0], obs_pri[1]
+                b_['arg'], b_['v'], b_['dv'], b_['ref'] = a_['arg'], a_['v'], a_['dv'], a_['ref']
+                self.same_prior_object = True
+
+    def prior_argument(self, form, order=None):
+        """priors= argument: list (one entry per parameter) or dict (insertion order = order of the items / given order)."""
+        items = self.priors
+        if form == 'list':
+            return [it['arg'] for it in sorted(items, key=lambda it: it['k'])]
+        order = list(range(len(items))) if order is None else list(order)
+        return {items[i]['k']: items[i]['arg'] for i in order}
 
     def reference_correlation(self):
         n = self.ntot
@@ -578,12 +590,7 @@ def call_fit(case, variant=None):
 
     parg = None
     if spec['priors']:
-        items = case.priors
-        if spec['priors']['form'] == 'list':
-            parg = [it['arg'] for it in sorted(items, key=lambda it: it['k'])]
-        else:
-            order = list(pv['priors']) if (pv and pv.get('priors') is not None) else list(range(len(items)))
-            parg = {items[i]['k']: items[i]['arg'] for i in order}
+        parg = case.prior_argument(spec['priors']['form'], pv['priors'] if (pv and pv.get('priors') is not None) else None)
     ref = reference(case, sigma, Wcall)          # raises Skip for ill-conditioned normal equations (before fitting)
     try:
         res = pe.least_squares(x, y, f, priors=parg, silent=True, **kw)
@@ -928,6 +935,17 @@ def corrfit_case(draw, tier):
             'pad': pad, 'ptrue': [draw(gen.fl(-2.0, 2.0)) for _ in range(nparm)], 'z': [draw(gen.fl(-2.0, 2.0)) for _ in range(T)],
             'correlated': draw(st.sampled_from([False, False, True])),
             'method': draw(st.sampled_from(['LM', 'LM', 'LM', 'migrad']))}
+    # options of least_squares requested through Corr.fit (the documented way to fit the data of a correlator; the fit
+    # is the one least_squares defines): Gaussian priors of every form, chisquare / expected chisquare
+    pmode = draw(st.sampled_from([None, None, None, 'dict', 'dict', 'list']))
+    priors = None
+    if pmode == 'list':
+        priors = {'form': 'list', 'items': [draw(prior_item(k, tier)) for k in range(nparm)]}
+    elif pmode == 'dict':
+        ks = draw(st.lists(st.integers(0, nparm - 1), min_size=1, max_size=nparm, unique=True))
+        priors = {'form': 'dict', 'items': [draw(prior_item(k, tier)) for k in ks]}
+    spec['priors'] = priors
+    spec['expected_chisquare'] = (not spec['correlated']) and priors is None and draw(st.integers(0, 2)) == 0
     exclude_vanishing_solution(spec)
     return spec
 
@@ -975,9 +993,11 @@ def corrfit_oracle(spec):
         a, b = 0, Tfull - 1
     want_t = [t + pad[0] for t in range(T) if content[t] is not None and a <= t + pad[0] <= b]
     # closed-form solution on exactly the defined timeslices of the inclusive range
+    pspec = spec.get('priors')
     fake = {'xdim': 1, 'nparm': nparm, 'sets': [{'key': '', 'terms': spec['terms'], 'n': len(want_t), 'x': [[float(t)] for t in want_t]}],
-            'priors': None, 'correlated': 'estimated' if spec['correlated'] else None, 'method': spec['method'], 'num_grad': False,
-            'mix': [], 'zscale': 1.0, 'S': [2.0] * len(want_t), 'single_call': True}
+            'priors': pspec, 'correlated': 'estimated' if spec['correlated'] else None, 'method': spec['method'], 'num_grad': False,
+            'mix': [], 'zscale': 1.0, 'S': [2.0] * len(want_t), 'single_call': True,
+            'expected_chisquare': bool(spec.get('expected_chisquare'))}
     case = Case.__new__(Case)
     case.pe = pe
     case.spec = fake
@@ -989,7 +1009,13 @@ def corrfit_oracle(spec):
     case.dy = np.array([float(o.dvalue) for o in case.ys])
     case.yv = np.array([float(o.value) for o in case.ys])
     case.yref = [RefObs.from_pe(o) for o in case.ys]
-    case.priors = []
+    # priors handed to Corr.fit are the priors of the fit: one extra row each in the closed form
+    case.build_priors(pspec, spec['ptrue'], spec)
+    npri = len(case.priors)
+    if pspec:
+        kw['priors'] = case.prior_argument(pspec['form'])
+    if spec.get('expected_chisquare'):
+        kw['expected_chisquare'] = True
     case.corr_kind = None
     if spec['correlated']:
         case.corr, case.corr_kind = case.reference_correlation()
@@ -1007,10 +1033,20 @@ def corrfit_oracle(spec):
         if 'did not converge' in str(e):
             raise Skip('minimiser did not converge (%s)' % spec['method'])
         raise
-    require(res.dof == n - nparm, 'Corr.fit used %d points, the inclusive range [%d, %d] contains %d defined timeslices'
-            % (res.dof + nparm, a, b, n))
-    judge(case, res, sigma, case.W, ref, 'Corr.fit')
+    if not npri:
+        require(res.dof == n - nparm, 'Corr.fit used %d points, the inclusive range [%d, %d] contains %d defined timeslices'
+                % (res.dof + nparm, a, b, n))
+    extra = judge(case, res, sigma, case.W, ref, 'Corr.fit' + (' with priors=%r' % (kw['priors'],) if npri else ''))
     labs = ['range:' + spec['how'], 'method:' + spec['method'], 'corr:%s' % spec['correlated'], 'pad:%s' % (pad != [0, 0])]
+    labs.append('priors:' + (pspec['form'] if pspec else 'None'))
+    if pspec:
+        for it in pspec['items']:
+            labs.append('prior:' + it['kind'] + (':' + it['errform'] if it['kind'] == 'str' else ''))
+        if npri < nparm:
+            labs.append('priors:subset')
+        if getattr(case, 'same_prior_object', False):
+            labs.append('prior:same_object_twice')
+    labs.extend(extra)
     skipped_inside = any(content[t - pad[0]] is None for t in range(max(a, pad[0]), min(b, pad[0] + T - 1) + 1))
     if skipped_inside:
         labs.append('undefined_slice_in_range')
@@ -1018,7 +1054,7 @@ def corrfit_oracle(spec):
         labs.append(case.corr_kind)
     for fid in spec.get('excluded', []):
         labs.append('excluded:' + fid)
-    return {'nt': skipped_inside or spec['correlated'] or spec['how'] != 'all', 'cls': sorted(labs)}
+    return {'nt': bool(skipped_inside or spec['correlated'] or spec['how'] != 'all' or npri), 'cls': sorted(set(labs))}
 
 
 # ---------------------------------------------------------------------------------------------- chained fits (history)
